@@ -13,13 +13,14 @@ import glob, json, os, re, shutil, sys, tempfile
 from ..common import Check, MachineryError, main_wrapper, TLA_DIR
 
 PID = 'C18'
-MC_QUICK = ['Cache_q1', 'Cache_q2', 'Cache_q3']
+MC_QUICK = ['Cache_q1', 'Cache_q2', 'Cache_q3', 'Cache_q4']
 MC_THOROUGH = ['Cache_t1', 'Cache_t3']
 WITNESS = {   # cause -> (cfg producing a counterexample of "no such witness", needs 3 processes?)
     'parse_edit_store': 'Cache_w_pes',
     'copy_window': 'Cache_w_copy',
     'equal_mtime': 'Cache_w_eq',
     'stat_by_name': 'Cache_w_byname',
+    'stamp_first': 'Cache_w_stampfirst',   # what-if: stamp written before the purge, first new-version process killed
     # coverage witnesses (no property violation expected): a cache hit, a purge that finds an entry,
     # a truncated entry being read and discarded, a copystat whose name vanished
     'cov_dataload': 'Cache_w_data',
@@ -106,6 +107,7 @@ def run():
     SAME = {1: 1, 2: 1, 3: 1}
     MIXED = {1: 1, 2: 1, 3: 2}
     MIXED2 = {1: 1, 2: 2, 3: 1}
+    MIXED3 = {1: 1, 2: 2, 3: 2}     # two processes of the new scanner version: the second trusts the stamp of the first
 
     if replay_only:
         r = replay_only
@@ -119,7 +121,8 @@ def run():
             if not r.get('violated'):
                 raise MachineryError('model has no witness for cause %s (cfg %s): %s' % (cause, cfg, r.get('error')))
             sched_ = schedule_from_states(parse_states(r['out'], 'error'))
-            execute('witness-' + cause, sched_, 3, MIXED if cause == 'cov_purge' else SAME, coarse=(cause == 'equal_mtime'),
+            execute('witness-' + cause, sched_, 3, MIXED if cause == 'cov_purge' else MIXED3 if cause == 'stamp_first' else SAME,
+                    coarse=(cause == 'equal_mtime'),
                     src='TLC counterexample ' + cfg)
         # -------------------------------------------------------- 2b. simulated behaviours of the model
         nsim = 120 if ck.quick else 1500
@@ -131,10 +134,33 @@ def run():
             sched_ = schedule_from_states(parse_states(open(f).read(), 'sim'))
             execute('sim-%d' % i, sched_, 3, MIXED, coarse=True, src='tlc -simulate Cache_sim.cfg')
         shutil.rmtree(simdir, ignore_errors=True)
+        # -------------------------------------------------------- 2c. every crash point / pause point, sequentially
+        # p1 runs alone to the end (stores an entry), p2 runs k primitives and is then killed (or merely
+        # paused), p3 runs alone to the end, p2 (if alive) finishes: the quantifier's "all crash points
+        # inside a store" and "wherever a writer is killed", also across a scanner-version change
+        def prims_of(sv, copy):
+            root = tempfile.mkdtemp(prefix='w-', dir=ck.tmp)
+            try:
+                w, procs, info = S.run_schedule(root, [('run', 1, None)] * 40 + [('run', 2, None)] * 40, nprocs=3, svers=sv,
+                                                coarse=False, complete=False)
+                return sum(1 for e in w.events if e['p'] == 2 and e['act'] not in ('Ret', 'Raise'))
+            finally:
+                shutil.rmtree(root, ignore_errors=True)
+
+        for sv, tag in ((SAME, 'same'), (MIXED3, 'mixed3'), (MIXED2, 'mixed2')):
+            n2 = prims_of(sv, False)
+            for k in range(0, n2 + 1, 1 if (not ck.quick or sv is MIXED3) else 2):
+                for mode in ('crash', 'pause'):
+                    sched_ = [('run', 1, None)] * 40 + [('run', 2, None)] * k
+                    if mode == 'crash':
+                        sched_ += [('Crash', 2, None)]
+                    sched_ += [('run', 3, None)] * 40
+                    execute('sweep-%s-%s-%d' % (tag, mode, k), sched_, 3, sv, coarse=False,
+                            src='directed: p1 alone, p2 %s after %d primitives, p3 alone' % (mode, k))
         # -------------------------------------------------------- 3. random schedules on the real code
         nrand = 300 if ck.quick else 6000
         for i in range(nrand):
-            sv = [SAME, MIXED, SAME, MIXED2][i % 4]
+            sv = [SAME, MIXED, SAME, MIXED2, MIXED3][i % 5]
             execute('rand-%d' % i, None, 3, sv, coarse=(i % 3 == 0), rng=ck.rng, src='random scheduler seed %d' % ck.seed)
 
     # ------------------------------------------------------------ 4. verdicts by TLC
